@@ -497,6 +497,29 @@ def path_decisions(f, path, exit_kind=None):
     return out
 
 
+def _self_increment(t, name, tb):
+    """when the value term t is  <previous value of `name`> + e  with e free of `name`: the term e, else None"""
+    if not (t[0] == 'bin' and t[1] in ('+', '-')):
+        return None
+    try:
+        prev = tb.var(name)
+    except Exception:
+        return None
+    from .rules.repair import affine, aff_sub
+    a = affine(t)
+    if not a or a.get(prev) != 1:
+        return None
+    rest = {k: v for k, v in a.items() if k != prev and not (k == 1 and v == 0)}
+    if any(any(x[0] == 'v' and x[1] == name for x in walk_term(k)) for k in rest if k != 1):
+        return None
+    # rebuild e as a term: sum of coefficient * symbol (+ constant)
+    e = None
+    for k, v in sorted(rest.items(), key=lambda kv: repr(kv[0])):
+        part = ('c', v) if k == 1 else (k if v == 1 else ('bin', '*', k, ('c', v)))
+        e = part if e is None else ('bin', '+', e, part)
+    return e if e is not None else ('c', 0)
+
+
 def walk_path(f, path, env=None):
     """substitute names in order along `path`; returns (events, env).
     events: def / append / store / raise / return / expr / test"""
@@ -533,7 +556,12 @@ def walk_path(f, path, env=None):
                     for i in d.path:
                         t = item(t, i)
                     new[d.name] = t
-                    events.append(Event('def', nd, d.name, t))
+                    inc = _self_increment(t, d.name, tb)
+                    if inc is not None:
+                        # x = <x + e written through temporaries> (begin = x + 1; x = begin + k): an advance of x by e
+                        events.append(Event('aug', nd, d.name, t, inc))
+                    else:
+                        events.append(Event('def', nd, d.name, t))
                 elif d.kind == 'aug' and d.value is not None:
                     from .core import fold_bin, _BINOPS
                     val = tb.build(d.value)
